@@ -645,6 +645,73 @@ def check_edit(case, rec):
         shutil.rmtree(tmp, ignore_errors=True)
 
 
+def check_retry(case, rec):
+    """A well-formed model whose first attempt fails for a reason outside the model -- a cell of the table that is no
+    number, or a result looked at before the command it refers to was added -- is accepted, runs and writes its output
+    once the cause is repaired and the same Program object is run again: acceptance depends on the model alone."""
+    from mpilot.exceptions import MPilotError
+    from mpilot.program import Program
+
+    io = SP.CSV
+    model = case["model"]
+    cmds = model_commands(model)
+    mode = ("bad_cell", "late_producer")[case["picks"][1] % 2]
+    tmp = tempfile.mkdtemp(prefix="vcheck-c12-")
+    try:
+        M.write_table(model, os.path.join(tmp, "input.csv"))
+        try:
+            Program.from_source(text_of(cmds), libraries=libraries(io), working_dir=tmp).run()
+        except Exception as exc:
+            rec.exclude("retry:base_model_does_not_run:%s" % type(exc).__name__)
+            return []
+        for name in ("written.csv", "printed.txt"):
+            if os.path.exists(os.path.join(tmp, name)):
+                os.remove(os.path.join(tmp, name))
+        sig = "retry:" + mode
+        if mode == "bad_cell":
+            prog = Program.from_source(text_of(cmds), libraries=libraries(io), working_dir=tmp)
+            path = os.path.join(tmp, "input.csv")
+            with open(path) as f:
+                good = f.read()
+            lines = good.split("\n")
+            lines[1] = ",".join(["n/a"] * len(lines[1].split(",")))
+            with open(path, "w") as f:
+                f.write("\n".join(lines))
+            try:
+                prog.run()
+                return []  # (no command reads the table: nothing to repair)
+            except MPilotError:
+                pass
+            with open(path, "w") as f:
+                f.write(good)
+        else:
+            # the model assembled through add_command, readers last; a consumer is looked at before its input exists
+            prog = Program(libraries=libraries(io), working_dir=tmp)
+            lib = prog.command_library
+            later = [c for c in cmds if c["cmd"] == "EEMSRead"]
+            early = [c for c in cmds if c["cmd"] != "EEMSRead"]
+            for c in early:
+                prog.add_command(lib[c["cmd"]], c["name"], {k: api_value(v) for k, v in c["args"]})
+            try:
+                prog.commands[early[case["picks"][0] % len(early)]["name"]].result
+            except MPilotError:
+                pass
+            for c in later:
+                prog.add_command(lib[c["cmd"]], c["name"], {k: api_value(v) for k, v in c["args"]})
+        rec.label(sig)
+        rec.nontrivial_case(["retry", model, mode])
+        try:
+            prog.run()
+        except Exception as exc:
+            return [Failure(sig + "|wellformed_rejected_after_repair:%s" % type(exc).__name__, "%s\n%s" % (sstr(exc)[:300], text_of(cmds)))]
+        missing = [n for n in ("written.csv", "printed.txt") if not os.path.exists(os.path.join(tmp, n))]
+        if missing:
+            return [Failure(sig + "|accepted_but_no_output", "not written: %r\n%s" % (missing, text_of(cmds)))]
+        return []
+    finally:
+        shutil.rmtree(tmp, ignore_errors=True)
+
+
 @st.composite
 def fault_cases(draw, exhaustive_positions=True):
     model = draw(M.typed_models(max_nodes=6, clean=True))
@@ -847,7 +914,7 @@ def check_overlap(case, rec):
         shutil.rmtree(tmp, ignore_errors=True)
 
 
-PARTS = {"decl": check_decl, "pair": check_pair, "fault": check_fault, "extend": check_extend, "paths": check_paths, "overlap": check_overlap, "edit": check_edit}
+PARTS = {"decl": check_decl, "pair": check_pair, "fault": check_fault, "extend": check_extend, "paths": check_paths, "overlap": check_overlap, "edit": check_edit, "retry": check_retry}
 
 
 def setup_parent(ctx):
@@ -863,3 +930,4 @@ def run_shard(ctx, rec):
     drive(ctx, rec, "fault", fault_cases(), check_fault, ctx.n(160, 4000))
     drive(ctx, rec, "extend", fault_cases(), check_extend, ctx.n(400, 8000))
     drive(ctx, rec, "edit", fault_cases(), check_edit, ctx.n(400, 8000))
+    drive(ctx, rec, "retry", fault_cases(), check_retry, ctx.n(300, 6000))
